@@ -108,9 +108,22 @@ deriving Inhabited
 def bucketOf (t : Time) : Int := (storageBucket t).toInt
 def cleanupOf (t : Time) : Int := (cleanupBucket t).toInt
 
+/-- the bucket a new registration goes to: `storageBucket exp`, or — when that bucket has
+already been cleaned up — the next bucket to be cleaned up (so that late arrivals are still
+reclaimed) -/
+def addBucket (em : Em) (exp : Time) : Int :=
+  let b := bucketOf exp
+  if emAddLate (BitVec.ofInt 64 b) (BitVec.ofInt 64 em.lastCleaned) then
+    (emAddNext (BitVec.ofInt 64 em.lastCleaned)).toInt else b
+
+def updateBucket (em : Em) (exp : Time) : Int :=
+  let b := bucketOf exp
+  if emUpdateLate (BitVec.ofInt 64 b) (BitVec.ofInt 64 em.lastCleaned) then
+    (emUpdateNext (BitVec.ofInt 64 em.lastCleaned)).toInt else b
+
 def Em.add (em : Em) (k : Hash) (c : Conf) (exp : Time) : Em :=
   if emAddSkip exp then em else
-  let b := bucketOf exp
+  let b := addBucket em exp
   { em with buckets := em.buckets.insert b (((em.buckets.lookup b).getD AMap.empty).insert k c) }
 
 def Em.update (em : Em) (k : Hash) (c : Conf) (old new : Time) : Em :=
@@ -119,7 +132,7 @@ def Em.update (em : Em) (k : Hash) (c : Conf) (old new : Time) : Em :=
     | some m => em.buckets.insert b0 (m.erase k)
     | none => em.buckets
   if emUpdateSkip new then { em with buckets := bs } else
-  let b := bucketOf new
+  let b := updateBucket em new
   { em with buckets := bs.insert b (((bs.lookup b).getD AMap.empty).insert k c) }
 
 def Em.del (em : Em) (k : Hash) (exp : Time) : Em :=
